@@ -92,16 +92,18 @@ func siteName(id int) string {
 // ---------------------------------------------------------------------------
 
 type c18Pool struct {
-	files    [][]byte // shared source byte slices (some faulted)
-	fileDesc []string
-	intact   []bool // an unfaulted corpus file: the only kind the real vec back end is given
-	pals     []*[64]color.RGBA
-	progs    [][]world.Op
-	grad     *render.Gradient // an initialised gradient shared as a read-only image source
-	mdPaths  []*mdicons.Path  // parsed SVG paths shared by several conversions
-	rstops   [][]render.Stop  // gradient stops in the Renderer's own form, shared by direct users of render.Gradient
-	firstUse [][]world.Op     // earlier uses of an object that lives through two uses: may start without Reset, with observers
-	cregs    *[64]color.RGBA
+	files       [][]byte // shared source byte slices (some faulted)
+	fileDesc    []string
+	intact      []bool // an unfaulted corpus file: the only kind the real vec back end is given
+	pals        []*[64]color.RGBA
+	progs       [][]world.Op
+	arena       int              // index of a file that is the front part of a larger array whose rest belongs to a loader task (-1: none)
+	loaderTaken bool             // at most one loader per case
+	grad        *render.Gradient // an initialised gradient shared as a read-only image source
+	mdPaths     []*mdicons.Path  // parsed SVG paths shared by several conversions
+	rstops      [][]render.Stop  // gradient stops in the Renderer's own form, shared by direct users of render.Gradient
+	firstUse    [][]world.Op     // earlier uses of an object that lives through two uses: may start without Reset, with observers
+	cregs       *[64]color.RGBA
 	// option values built once per case and shared by every task that decodes
 	// with options (an application keeps such values around and reuses them)
 	opts     []decode.DecodeOption // a shared option table WITH SPARE CAPACITY: callers spread sub-slices of it into Decode
@@ -207,6 +209,18 @@ func c18BuildPool(ctx *Ctx, t *tape.Tape) *c18Pool {
 		p.fileDesc = append(p.fileDesc, desc)
 		p.intact = append(p.intact, intact && fromCorpus)
 	}
+	// one file may be the front part of an arena: the bytes right behind it
+	// belong to somebody else (a loader appending the next item), who writes
+	// them while the file is being read. Its spare capacity is therefore not
+	// watched by hash; the race arm watches it instead.
+	p.arena = -1
+	if t.Bool() {
+		p.arena = t.Intn(len(p.files))
+		f := p.files[p.arena]
+		buf := make([]byte, len(f)+64)
+		copy(buf, f)
+		p.files[p.arena] = buf[:len(f)]
+	}
 	for i := 0; i < 2; i++ {
 		pal := world.GenPalette(t)
 		// a caller-supplied palette may hold anything: also colours that are
@@ -287,7 +301,11 @@ func c18BuildPool(ctx *Ctx, t *tape.Tape) *c18Pool {
 
 func (p *c18Pool) hash() uint64 {
 	h := uint64(14695981039346656037)
-	for _, f := range p.files {
+	for i, f := range p.files {
+		if i == p.arena {
+			h = fnvAdd(h, fnv(f))
+			continue
+		}
 		h = fnvAdd(h, fnv(f[:cap(f)]))
 	}
 	for _, pal := range p.pals {
@@ -370,7 +388,7 @@ func c18MakeTask(t *tape.Tape, p *c18Pool) c18Task {
 	if logged {
 		suffix += " via DestinationLogger"
 	}
-	switch t.Pick(4, 2, 4, 3, 1, 2, 3, 3, 2, 1, 2, 2, 1, 1, 2, 2, 1, 2) {
+	switch t.Pick(4, 2, 4, 3, 1, 2, 3, 3, 2, 1, 2, 2, 1, 1, 2, 2, 1, 2, 2) {
 	case 0:
 		return c18Task{name: "decode->Renderer->recording rasteriser" + suffix, run: func() string {
 			z := &world.RecRaster{}
@@ -649,6 +667,27 @@ func c18MakeTask(t *tape.Tape, p *c18Pool) c18Task {
 			vz.ClosePath()
 			vz.Draw(img.Bounds(), g, image.Point{X: x0, Y: y0})
 			return fmt.Sprintf("samples %016x pixels %016x", hh, fnv(img.Pix))
+		}}
+	case 18:
+		// the loader that owns the bytes right behind the arena-backed file:
+		// it writes them (and only them) while others read the file
+		if p.arena >= 0 && !p.loaderTaken {
+			p.loaderTaken = true
+			f := p.files[p.arena]
+			tail := f[len(f):cap(f)]
+			seed := t.Intn(256)
+			return c18Task{name: fmt.Sprintf("loader writing the %d bytes right behind shared file#%d (its own part of the arena)", len(tail), p.arena), run: func() string {
+				for round := 0; round < 3; round++ {
+					for i := range tail {
+						tail[i] = byte(seed + i*7 + round)
+					}
+				}
+				return fmt.Sprintf("wrote %d bytes", len(tail))
+			}}
+		}
+		return c18Task{name: "DecodeViewBox" + suffix, run: func() string {
+			vb, err := decode.DecodeViewBox(src)
+			return fmt.Sprintf("err=%s %v", errText(err), vb)
 		}}
 	default:
 		vbs := []ivg.ViewBox{ivg.DefaultViewBox, {MinX: 0, MinY: 0, MaxX: 48, MaxY: 24}}
